@@ -125,9 +125,10 @@ def type_matcher(paths, tname, eom=True, stmt=None):
     return 'T;%s;%s;%s' % (_flags(eom, stmt), tname, ','.join(hx(p) for p in paths))
 
 
-def custom_matcher(path, ok=True, payload='"custom"', eom=True, stmt=None, fires=False):
-    """fires: the callback makes the Match* call armed by the preceding `nest` operation before it returns"""
-    return 'C;%s;%s;%s;%s' % (_flags(eom, stmt), hx(path), ('okx' if fires else 'ok') if ok else 'err', hx(payload))
+def custom_matcher(path, ok=True, payload='"custom"', eom=True, stmt=None, fires=False, as_bytes=False):
+    """fires: the callback makes the Match* call armed by the preceding `nest` operation before it returns;
+    as_bytes: a string replacement is returned as a []byte (direct worlds only: the model does not know the form)"""
+    return 'C;%s;%s;%s;%s' % (_flags(eom, stmt), hx(path), ('okb' if as_bytes else 'okx' if fires else 'ok') if ok else 'err', hx(payload))
 
 
 def composite_matcher(tokens, empty=True):
